@@ -61,7 +61,7 @@ static void scn_ranks(void)
             if (how == 0)
                 r = ABT_xstream_create(ABT_SCHED_NULL, &X[s]);
             else if (how == 1)
-                r = ABT_xstream_create_basic(rnd(2) ? ABT_SCHED_BASIC : ABT_SCHED_DEFAULT, 1, NULL, ABT_SCHED_CONFIG_NULL, &X[s]);
+                r = ABT_xstream_create_basic(rnd(2) ? ABT_SCHED_BASIC : ABT_SCHED_DEFAULT, 1, (ABT_pool[1]){ ABT_POOL_NULL }, ABT_SCHED_CONFIG_NULL, &X[s]);
             else
                 r = ABT_xstream_create_with_rank(ABT_SCHED_NULL, req, &X[s]);
             int rank = -1;
@@ -160,6 +160,54 @@ static void scn_conc(void)
         pthread_join(th[i], NULL);
     log_num();
 }
+/* scenario "rankstress" (meant for free-running mode): several external threads
+ * create and free streams at full speed; at every quiescent point the number
+ * of streams and the smallest unused rank must be what they were */
+#define ST_THREADS 8
+static pthread_barrier_t g_sb;
+static volatile long g_screates, g_sfrees;
+static int g_spairs;
+static void *stress_fn(void *a)
+{
+    (void)a;
+    pthread_barrier_wait(&g_sb);
+    for (int i = 0; i < g_spairs; i++) {
+        ABT_xstream x;
+        if (ABT_xstream_create(ABT_SCHED_NULL, &x) != ABT_SUCCESS)
+            continue;
+        __sync_fetch_and_add(&g_screates, 1);
+        if (ABT_xstream_join(x) == ABT_SUCCESS && ABT_xstream_free(&x) == ABT_SUCCESS)
+            __sync_fetch_and_add(&g_sfrees, 1);
+    }
+    return NULL;
+}
+static void scn_stress(void)
+{
+    int rounds = (int)opt_long("rounds", 6);
+    g_spairs = (int)opt_long("pairs", 60);
+    for (int r = 0; r < rounds; r++) {
+        pthread_t th[ST_THREADS];
+        g_screates = g_sfrees = 0;
+        pthread_barrier_init(&g_sb, NULL, ST_THREADS);
+        for (int t = 0; t < ST_THREADS; t++)
+            pthread_create(&th[t], NULL, stress_fn, NULL);
+        for (int t = 0; t < ST_THREADS; t++)
+            pthread_join(th[t], NULL);
+        pthread_barrier_destroy(&g_sb);
+        EV("\"e\":\"XStress\",\"creates\":%ld,\"frees\":%ld", g_screates, g_sfrees);
+        log_num();
+        /* the smallest unused rank is handed out next */
+        ABT_xstream x;
+        int rk = -1;
+        CHK(ABT_xstream_create(ABT_SCHED_NULL, &x));
+        CHK(ABT_xstream_get_rank(x, &rk));
+        EV("\"e\":\"XCreate\",\"s\":1,\"how\":0,\"req\":-1,\"ret\":0,\"rank\":%d", rk);
+        CHK(ABT_xstream_join(x));
+        EV("\"e\":\"XJoin\",\"s\":1,\"ret\":0,\"term\":1");
+        CHK(ABT_xstream_free(&x));
+        EV("\"e\":\"XFree\",\"s\":1,\"ret\":0");
+    }
+}
 static void scenario(const char *name, uint64_t seed)
 {
     (void)seed;
@@ -167,6 +215,8 @@ static void scenario(const char *name, uint64_t seed)
     CHK(ABT_init(0, NULL));
     if (!strcmp(name, "ranks"))
         scn_ranks();
+    else if (!strcmp(name, "rankstress"))
+        scn_stress();
     else
         scn_conc();
     CHK(ABT_finalize());
